@@ -393,14 +393,22 @@ def _gen_case(rng, cid, kind, family, share=None, rate=None):
         classes = sorted(common + rng.sample([k for k in range(12) if k not in share], ncls - len(common)))
     if kind == 'wfq':
         style = rng.choice(['int', 'dyadic', 'mixed', 'equal'] + (['any'] if ncls <= 2 else []))
-        pool = {'int': INT_W, 'dyadic': DYADIC_W, 'mixed': INT_W + DYADIC_W, 'any': ANY_W, 'equal': [rng.choice(INT_W + DYADIC_W)]}[style]
+        # b-fixwfq BEGIN: weights that are not whole / dyadic with three or more classes (about 12% of those cases).  WFQ adds the
+        # weights of the backlogged classes in *table order* (`for i in self.weights: if i in self.active_set`), the model in ascending
+        # class order: the doubles agree for every workload when the table lists the classes in ascending order (style `anyasc`: the
+        # table is not shuffled below).  A shuffled table with such weights is outside the model's Float replay.
+        if ncls >= 3 and style != 'equal' and rng.random() < 0.15:
+            style = 'anyasc'
+        # b-fixwfq END
+        pool = {'int': INT_W, 'dyadic': DYADIC_W, 'mixed': INT_W + DYADIC_W, 'any': ANY_W, 'anyasc': ANY_W + [0.6], 'equal': [rng.choice(INT_W + DYADIC_W)]}[style]
     else:
         style = rng.choice(['vtick', 'equal'])
         pool = VTICKS if style == 'vtick' else [rng.choice(VTICKS)]
     if family == 'ties':
         pool = [rng.choice(pool)]
     table = [[k, rng.choice(pool)] for k in classes]
-    rng.shuffle(table)                          # dict key order is an input too
+    if style != 'anyasc':                       # b-fixwfq (see above)
+        rng.shuffle(table)                      # dict key order is an input too
     if rng.random() < 0.5:
         f2c = [[k, k] for k in classes]
         default = rng.random() < 0.5            # pass no flow2class at all
@@ -581,8 +589,9 @@ def _expected_stamps(c, run):
         def advance(t):
             nonlocal V
             ws = 0.0
-            for k in sorted(k for k in backlog if backlog[k] > 0):
-                ws += table[k]
+            for k in table:                     # b-fixwfq: in table order, as `update_vtime` adds them (the same double as in any other
+                if backlog[k] > 0:              # order for whole / dyadic weights and for at most two classes)
+                    ws += table[k]
             V += (t - last) / ws
 
         # `backlog`: packets of each class the virtual clock still counts (it advances over the interval that ends now
